@@ -43,6 +43,7 @@ def run(ctx):
     ctx.guard(rule_e, ctx, ix)
     ctx.guard(rule_f, ctx, ix)
     ctx.guard(rule_g, ctx, ix)
+    ctx.guard(rule_h, ctx, ix)
 
 
 def _ev(ix):
@@ -656,6 +657,9 @@ def rule_f(ctx, ix):
         v = r.value
         ok = False
         def cached(x):
+            if isinstance(x, ast.Call) and isinstance(x.func, ast.Attribute) and x.func.attr == 'get' and isinstance(x.func.value, ast.Name) \
+                    and x.func.value.id == memo and x.args and isinstance(x.args[0], ast.Name) and x.args[0].id == key:
+                return True         # memo.get(key, <sentinel>): the same read
             return isinstance(x, ast.Subscript) and isinstance(x.value, ast.Name) and x.value.id == memo \
                 and isinstance(x.slice, ast.Name) and x.slice.id == key
         if cached(v) or _is_full_call(v, f.params[0], va, kw):
@@ -756,3 +760,126 @@ def rule_g(ctx, ix):
                    detail='%s stores `%s` - the other subset\'s state object itself: the two subsets share one state, so editing '
                           'one (move_to, an edit mode applied to one of them) alters the other' % (f.construct, unparse(v)),
                    where=where(f, st))
+
+
+MUTATORS = ('append', 'extend', 'insert', 'remove', 'pop', 'sort', 'reverse', 'clear', 'update', 'add', 'discard', 'setdefault', 'popitem')
+FRESH_WRAPPERS = ('tuple', 'list', 'sorted', 'set', 'frozenset', 'dict', 'OrderedDict', 'copy', 'deepcopy')
+
+
+def _stored_collections(ix, classes):
+    """{property name: [(class, field)]} for the properties of the given classes that hand out a stored collection itself:
+    the getter returns `self.<field>` as it is (no tuple(...) / copy around it) and the class uses that field as a collection
+    (iterates it, takes its length, subscripts it, compares it with a list)."""
+    out = {}
+    examined = 0
+    for c in classes:
+        fields_used_as_collection = set()
+        getters = {}
+        for name, m in c.members.items():
+            if m.kind == 'property' and m.fget is not None and m.fget.cls is c:
+                examined += 1
+                rets = [r.value for r in returns_of(m.fget) if r.value is not None]
+                s_ = m.fget.self_name
+                if rets and all(isinstance(v, ast.Attribute) and isinstance(v.value, ast.Name) and v.value.id == s_ for v in rets):
+                    getters[name] = {v.attr for v in rets}
+        if not getters:
+            continue
+        alias = {}          # property / field name -> field
+        for p_, fs in getters.items():
+            for f_ in fs:
+                alias[p_] = f_
+                alias[f_] = f_
+        for name, m in c.members.items():
+            for f in (m.func, m.fget, m.fset):
+                if f is None or f.cls is not c:
+                    continue
+                s_ = f.self_name
+
+                def fld(e, s_=s_):
+                    return alias.get(e.attr) if isinstance(e, ast.Attribute) and isinstance(e.value, ast.Name) and e.value.id == s_ else None
+                for n in ast.walk(f.node):
+                    cands = []
+                    if isinstance(n, (ast.For, ast.comprehension)):
+                        cands.append(n.iter)
+                    elif isinstance(n, ast.Call) and isinstance(n.func, ast.Name) and n.func.id in ('len', 'zip', 'enumerate', 'sorted', 'list', 'tuple', 'set'):
+                        cands += list(n.args)
+                    elif isinstance(n, ast.Subscript):
+                        cands.append(n.value)
+                    elif isinstance(n, ast.ListComp):
+                        pass
+                    for e in cands:
+                        k = fld(e)
+                        if k:
+                            fields_used_as_collection.add(k)
+        for p_, fs in getters.items():
+            for f_ in fs:
+                if f_ in fields_used_as_collection:
+                    out.setdefault(p_, []).append((c.qualname, f_))
+    return out, examined
+
+
+def _borrowed_mutations(fnode, mutable_props):
+    """[(statement, name, what it was read from)] - a local bound to `<object>.<P>` (P hands out a stored collection) that is
+    then extended / changed in place: the change lands in the object the value was read from."""
+    bound = {}
+    for st in walk_no_nested(fnode):
+        if isinstance(st, ast.Assign) and len(st.targets) == 1 and isinstance(st.targets[0], ast.Name):
+            v = st.value
+            if isinstance(v, ast.Attribute) and v.attr in mutable_props:
+                bound.setdefault(st.targets[0].id, []).append(v)
+    hits = []
+    if not bound:
+        return hits
+    for st in walk_no_nested(fnode):
+        if isinstance(st, ast.AugAssign) and isinstance(st.target, ast.Name) and st.target.id in bound and \
+                isinstance(st.op, (ast.Add, ast.BitOr, ast.BitAnd, ast.Mult, ast.Sub, ast.BitXor)):
+            hits.append((st, st.target.id, bound[st.target.id][0]))
+        elif isinstance(st, ast.Expr) and isinstance(st.value, ast.Call) and isinstance(st.value.func, ast.Attribute) and \
+                st.value.func.attr in MUTATORS and isinstance(st.value.func.value, ast.Name) and st.value.func.value.id in bound:
+            hits.append((st, st.value.func.value.id, bound[st.value.func.value.id][0]))
+        elif isinstance(st, (ast.Assign, ast.Delete)):
+            for t in (st.targets if isinstance(st, (ast.Assign, ast.Delete)) else []):
+                if isinstance(t, ast.Subscript) and isinstance(t.value, ast.Name) and t.value.id in bound:
+                    hits.append((st, t.value.id, bound[t.value.id][0]))
+    return hits
+
+
+def rule_h(ctx, ix):
+    """Looking at a combined selection (its attributes, its parts) does not change the operands: a collection read from an
+    operand through a property that hands out the stored object itself is never extended or edited in place."""
+    R = 'C01.h'
+    ctx.describe(R, 'collections read from an operand (attributes, cids, states ...) are not extended or edited in place', floor=1)
+    base = ix.cls(SUBSET + '.SubsetState')
+    classes = [c for c in base.subclasses() if c.module.name.startswith('glue.')]
+    props_, examined = _stored_collections(ix, classes)
+    if examined < 20:
+        raise AnalysisError('C01.h: only %d properties of selection classes examined' % examined)
+    # the detector must recognise the pattern it is looking for (kept so that an empty result is not a vacuous pass)
+    probe = ast.parse('def attributes(self):\n    att = self.state1.attributes\n    att += self.state2.attributes\n    return tuple(att)\n').body[0]
+    if not _borrowed_mutations(probe, {'attributes'}):
+        raise AnalysisError('C01.h: the detector no longer recognises its reference example')
+    n = 0
+    for mname in ('glue.core.subset', 'glue.core.edit_subset_mode', 'glue.core.subset_group'):
+        m = ix.module(mname)
+        views = common.function_views(ix)
+        owner = {id(fn): cn.name for cn in ast.walk(m.tree) if isinstance(cn, ast.ClassDef) for fn in cn.body
+                 if isinstance(fn, (ast.FunctionDef, ast.AsyncFunctionDef))}
+        for raw in ast.walk(m.tree):
+            if not isinstance(raw, (ast.FunctionDef, ast.AsyncFunctionDef)):
+                continue
+            node = views(raw)
+            fq = '%s%s' % (owner[id(raw)] + '.' if id(raw) in owner else '', raw.name)
+            if node is None:
+                continue
+            n += 1
+            for st, name, src in _borrowed_mutations(node, set(props_)):
+                who = ', '.join('%s.%s' % (cq.rsplit('.', 1)[-1], f_) for cq, f_ in props_[src.attr][:3])
+                ctx.ob(R, '%s:%s `%s`' % (mname, fq, norm(st)), 'no in-place change of a collection read from another object', False,
+                       detail='%s.%s binds `%s = %s` and then changes it in place with `%s`: `.%s` can be the stored collection itself '
+                              '(%s is returned as it is), so looking at the combined selection extends the list of its operand - for a '
+                              'mask selection made by `subset.subset_state = <array>` that list is the dataset\'s own '
+                              'pixel_component_ids' % (mname, fq, name, unparse(src), norm(st), src.attr, who),
+                       where='%s:%d' % (m.relpath, getattr(st, '_orig_lineno', st.lineno)))
+    ctx.ob(R, 'selection modules', 'every function of the selection modules was scanned for in-place changes of borrowed collections '
+           '(%d functions; properties that hand out a stored collection: %s)' % (n, ', '.join(sorted(props_)) or 'none'), n >= 100,
+           detail='only %d functions scanned' % n)
